@@ -1,10 +1,10 @@
 #!/bin/bash
 # usage: tools/seedcheck.sh <seed-id> <check-id>...   - runs quick checks against a kept seeded change on a
 # copy of /repo and /verif under /root/seedwork (never touches /repo); prints the first VIOLATION lines
-W=/root/seedwork; id=$1; shift
+W=${SEEDWORK:-/root/seedwork}; id=$1; shift
 mkdir -p $W
 rsync -a --delete --exclude target --exclude .git /repo/ $W/repo/
-rsync -a --delete --exclude target --exclude .git --exclude seeded --exclude replay /verif/ $W/verif/
+rsync -a --delete --exclude target --exclude .git --exclude seeded --exclude replay ${VSRC:-/verif}/ $W/verif/
 sed -i "s#path = \"/repo\"#path = \"$W/repo\"#" $W/verif/harness/Cargo.toml
 ( cd $W/repo && patch -p1 -s < /verif/seeded/$id/patch.diff ) || { echo "patch does not apply"; exit 2; }
 for c in "$@"; do
